@@ -538,8 +538,8 @@ class Models:
             if c.st.ctx.entails(lin.le(exact, lin.const(hi))) and c.st.ctx.entails(lin.le(lin.const(0), exact)):
                 c.set_dest({(): ("i", exact, (bits, norm_mod(modform, bits)))})
             else:
-                s = c.eng.named(("wrap", c.site, c.eng.symctr + 1), (0, hi))
-                c.eng.symctr += 1
+                # a pure function of its operands: the same operands give the same symbol
+                s = c.eng.named(("wrap", "sub" if sub else "add", bits, la, lb), (0, hi))
                 c.eng.link(lin.var(s), exact)
                 c.set_dest({(): ("i", lin.var(s), (bits, norm_mod(modform, bits)), ("wrapping", "sub" if sub else "add", la, lb))})
             return [c.st]
